@@ -20,6 +20,19 @@ CLAIMED = {
          "Trusts go-ethereum secp256k1, testing/synctest, the harness reference model; UDP socket loop is a stub; capacities < 2^56."),
 }
 
+CLAIMED.update({
+ "C01": ("exploration", "5.1", "The network as adversary: valid reports mutated (bit flips, field swaps, re-signing under every other key, prefix tampering, boundary timeslots, sentinel powers, truncation, extension, random bytes, replays) against (now, offset) configurations reached by clock jumps, real rotations, a stalled rotation thread and restarts; full snapshot and report log compared before/after every delivery, acceptance decided by an independent predicate. Sampling, not proof.",
+         "Trusts go-ethereum secp256k1, synctest, the harness predicate; the kernel-facing UDP loop is modelled (leading 80 bytes of datagrams >= 80 bytes)."),
+ "C03": ("exploration", "5.3", "Generated histories of reports, bans, clock advances of any size, simulated time with the real rotation and impact loops, restarts with catch-up, statistics GETs for every kind of offset with and without insert_false_negatives. Every rotation is observed inside migrateReports (under the lock) and checked slot by slot; served, in-memory and on-disk archived weeks are compared bit for bit with the first archived form and verified under the server key with an independent encoder.",
+         "Trusts the harness model and encoder; WattTime values come from the repo's own test-mode stub."),
+ "C04": ("exploration", "5.4", "Generated histories with a graceful restart after seeded prefixes (thorough: after every operation of short histories), 1-3 restarts in a row, clocks requiring 0/1/several catch-up rotations; snapshot before == after on the listed fields, model agreement, idempotence, start-up rotation rule.",
+         "Graceful Close()/NewGCAServer only (crashes are C05); server list, migrations and live impact rates are excluded as the property says."),
+ "C06": ("exploration", "5.6", "Generated authorization sequences through the real JSON endpoint (new, duplicate, single-field conflicts incl. key reuse, foreign/invalid signatures, banned ids, arbitrary finite float64 coordinates) interleaved with reports, rotations, restarts; equipment/ban reference model compared on snapshot, equipment list (bit exact), recent reports by key, sync by id, live statistics, plus the server's own CheckInvariants after every step.",
+         "Fresh ids always carry fresh keys; coordinates whose sum overflows float64 are excluded because the repo's test-mode WattTime stub derives the impact rate from that sum."),
+ "C07": ("exploration", "5.7", "1-4 batches of 2-8 concurrent registration request tasks (valid for three candidate keys, wrong signers, altered key, replays) released in seeded orders, with restarts in between, and equipment / server / migration authority attempts signed by the temp key, the server key, losing candidates and the winner before and after registration; compared with the sequential rules in execution order.",
+         "Concurrency is the seeded order of whole requests (one critical section each); real parallel execution is exercised by C13's race mode."),
+})
+
 NOT_YET = {
 }
 
